@@ -217,6 +217,9 @@ func collectForalls(t *Term, guard *Term, out *[]hyp) {
 		if len(t.bvars) == 1 && !t.bound && t.bvars[0].sort == I64 {
 			*out = append(*out, hyp{guard, t})
 		}
+		if len(t.bvars) == 2 && !t.bound && t.bvars[0].sort == I64 && t.bvars[1].sort == I64 {
+			*out = append(*out, hyp{guard, t})
+		}
 	}
 }
 
@@ -276,6 +279,62 @@ func instantiateQuery(f *Term, neg *Term) *Term {
 		added := 0
 		var newInst []*Term
 		for _, h := range hyps {
+			if len(h.q.bvars) == 2 && seedsT == nil {
+				continue // pairwise instances only in goal-directed mode (the undirected product is too large)
+			}
+			if len(h.q.bvars) == 2 {
+				// two index variables (pairwise facts such as distinctness): every pair of candidates
+				roots := map[int]bool{}
+				arraysRead(h.q.args[0], map[int]bool{}, roots)
+				idxs := map[int]*Term{}
+				for r := range roots {
+					for id, ix := range byRoot[r] {
+						idxs[id] = ix
+					}
+				}
+				var cands [2][]*Term
+				for vi := 0; vi < 2; vi++ {
+					offs := map[int]*Term{}
+					offsetsOf(h.q.args[0], h.q.bvars[vi], map[int]bool{}, offs)
+					seenC := map[int]bool{}
+					for _, b := range sortedTerms(offs) {
+						for _, ix := range sortedTerms(idxs) {
+							c := subOffset(ix, b)
+							if !seenC[c.id] {
+								seenC[c.id] = true
+								cands[vi] = append(cands[vi], c)
+							}
+						}
+					}
+				}
+				if len(cands[0])*len(cands[1]) > 900 {
+					continue
+				}
+				for _, c0 := range cands[0] {
+					for _, c1 := range cands[1] {
+						if c0 == c1 {
+							continue
+						}
+						key := fmt.Sprintf("%d:%d:%d", h.q.id, c0.id, c1.id)
+						if done[key] {
+							continue
+						}
+						done[key] = true
+						body := subst(h.q.args[0], map[int]*Term{h.q.bvars[0].id: c0, h.q.bvars[1].id: c1}, map[int]*Term{})
+						body = skolemize(body, true)
+						if h.guard != nil {
+							body = Implies(h.guard, body)
+						}
+						if body == True {
+							continue
+						}
+						extra = append(extra, body)
+						newInst = append(newInst, body)
+						added++
+					}
+				}
+				continue
+			}
 			v := h.q.bvars[0]
 			offs := map[int]*Term{}
 			offsetsOf(h.q.args[0], v, map[int]bool{}, offs)
